@@ -98,6 +98,20 @@ int main(int argc, char **argv) {
       // issued by faster ranks: nobody starts the next epoch before everybody has finished reading this one
       world.cf_barrier();
     }
+    // ---- clear() and immediate reuse: a union issued as soon as clear() has returned on this rank must survive (every rank
+    // has cleared before anyone continues) ----
+    {
+      ds.clear();
+      ds.async_union(500000 + me, 600000 + me);
+      ds.async_union(600000 + me, 600000 + (me + 1) % world.size());
+      world.barrier();
+      std::string s = "PC " + std::to_string(me) + " :";
+      for (auto &kv : ds.m_impl.m_local_item_parent_map)
+        s += " " + std::to_string(kv.first) + "," + std::to_string(kv.second.get_rank()) + "," + std::to_string(kv.second.get_parent());
+      line(s);
+      line("NSC " + std::to_string(me) + " : " + std::to_string(ds.num_sets()) + " " + std::to_string(ds.size()));
+      world.cf_barrier();
+    }
   }
   line("DONE " + std::to_string(me));
   return 0;
